@@ -159,6 +159,38 @@ theorem cone_scaled_mem (c : Cone K) (sx sy : K) (p : V3 K) (hx : sx ≠ 0) (hy 
       = (c.r * c.r * ((c.hh - p.y) * (c.hh - p.y))) * ((sx * sx) * (sy * sy)) := by rw [abs_mul_abs_self]; ring
   rw [e1, e2, mul_le_mul_iff_of_pos_right (mul_pos h2 h3)]
 
+/-- point of the (x,z)-projection of a triangle: barycentric coordinates -/
+def ProjMem (t : Triangle3 K) (x z : K) : Prop :=
+  ∃ a b c : K, 0 ≤ a ∧ 0 ≤ b ∧ 0 ≤ c ∧ a + b + c = 1 ∧
+    x = a * t.a.x + b * t.b.x + c * t.c.x ∧ z = a * t.a.z + b * t.b.z + c * t.c.z
+
+/-- **heightfield discretization covers every cell**: for both subdivision patterns (default and ZIGZAG) and every
+cell with no removed triangle, every point of the cell rectangle `[x0,x1]×[z0,z1]` (any scale signs) lies in the projection of
+one of the two triangles returned by `triangles_at` — no quarter of the cell is left uncovered. -/
+theorem hf_cell_covered (nrows ncols i j y00 y10 y01 y11 : K) (scale : V3 K) (zig : Bool) (u v : K)
+    (hu0 : 0 ≤ u) (hu1 : u ≤ 1) (hv0 : 0 ≤ v) (hv1 : v ≤ 1) :
+    letI := fieldNum K sq
+    match hfTrianglesAt nrows ncols i j y00 y10 y01 y11 scale ⟨zig, false, false⟩ with
+    | (some t1, some t2) =>
+      let x0 := (-(1/2) + 1 / (ncols - 1) * j) * scale.x
+      let x1 := (-(1/2) + 1 / (ncols - 1) * (j + 1)) * scale.x
+      let z0 := (-(1/2) + 1 / (nrows - 1) * i) * scale.z
+      let z1 := (-(1/2) + 1 / (nrows - 1) * (i + 1)) * scale.z
+      ProjMem t1 (x0 + u * (x1 - x0)) (z0 + v * (z1 - z0)) ∨ ProjMem t2 (x0 + u * (x1 - x0)) (z0 + v * (z1 - z0))
+    | _ => False := by
+  have hl : ((mkRat 1 2 : Rat) : K) = 1/2 := by norm_num
+  cases zig
+  · -- default pattern: diagonal p10–p01
+    simp only [hfTrianglesAt, Bool.false_and, Bool.false_eq_true, if_false, V3.cmul, fieldNum_lit, hl, ProjMem]
+    rcases le_total (u + v) 1 with h | h
+    · left; exact ⟨1 - u - v, v, u, by linarith, hv0, hu0, by ring, by ring, by ring⟩
+    · right; exact ⟨1 - u, u + v - 1, 1 - v, by linarith, by linarith, by linarith, by ring, by ring, by ring⟩
+  · -- zigzag pattern: diagonal p00–p11
+    simp only [hfTrianglesAt, Bool.false_and, Bool.false_eq_true, if_false, if_true, V3.cmul, fieldNum_lit, hl, ProjMem]
+    rcases le_total u v with h | h
+    · left; exact ⟨1 - v, v - u, u, by linarith, by linarith, hu0, by ring, by ring, by ring⟩
+    · right; exact ⟨1 - u, v, u - v, by linarith, hv0, by linarith, by ring, by ring, by ring⟩
+
 /-- every vertex emitted by `push_circle` lies on the circle of that radius at height `y`
 (the only trigonometric fact used is `cos² + sin² = 1`). -/
 theorem circlePoint_on_boundary (radius y c s : K) (h : c * c + s * s = 1) :
